@@ -1,0 +1,20 @@
+//go:build verif
+
+package signer
+
+import (
+	"crypto/rsa"
+	"time"
+)
+
+// This file is only built with the "verif" tag. It exposes the RSA time
+// signing entry point with an explicit instant to an external verification
+// harness; it adds no behaviour to the package.
+
+// VerifRSASignTime signs the instant t with the given RSA key.
+func VerifRSASignTime(k *rsa.PrivateKey, t time.Time) (*SignedRSABlock, error) {
+	return rsaSignTime(k, t)
+}
+
+// VerifTimestampLen is the length of the timestamp prefix.
+const VerifTimestampLen = timestampLen
